@@ -5,6 +5,7 @@ use crate::gen::gen_rscript_extreme;
 use crate::json::J;
 use crate::model::{ancestors, Model, Node};
 use crate::ops::{exec, render_res, Kind, Op, Out, TimeField};
+use crate::props::par_run;
 use crate::report::{Acc, Violation};
 use crate::rng::Rng;
 use crate::snapshot::{diff_snaps, snapshot, walk};
@@ -20,6 +21,82 @@ struct Fixture;
 #[derive(RustEmbed, Debug)]
 #[folder = "/repo/test/test_directory"]
 struct RepoFixture;
+
+/// A hand-written `RustEmbed` over a per-thread generated file table: EmbeddedFS is defined against the trait, so
+/// the path set need not be fixed at compile time. `iter()` hands out the table in generation order (shuffled),
+/// exactly as the derive does with its static name table.
+#[derive(Debug)]
+struct GenFixture;
+
+struct GenTable {
+    names: &'static [&'static str],
+    data: std::collections::HashMap<&'static str, &'static [u8]>,
+}
+
+thread_local! {
+    static GEN: std::cell::RefCell<GenTable> = std::cell::RefCell::new(GenTable { names: &[], data: Default::default() });
+}
+
+impl RustEmbed for GenFixture {
+    fn get(file_path: &str) -> Option<rust_embed::EmbeddedFile> {
+        GEN.with(|g| g.borrow().data.get(file_path).map(|d| rust_embed::EmbeddedFile { data: std::borrow::Cow::Borrowed(*d), metadata: rust_embed::Metadata::__rust_embed_new([0u8; 32], Some(1_600_000_000), Some(1_600_000_000)) }))
+    }
+    fn iter() -> rust_embed::Filenames {
+        rust_embed::Filenames::Embedded(GEN.with(|g| g.borrow().names.iter()))
+    }
+}
+
+/// Names chosen so that a component re-occurs as text earlier in the same path, as a prefix / suffix of a sibling,
+/// or as its own parent's name.
+const GEN_NAMES: &[&str] = &["a", "ab", "b", "ba", "x", "data", "ta", "a.b", ".h", "é", "a b", "f.txt", "x.txt"];
+
+fn gen_embedded_tree(rng: &mut Rng) -> Vec<(String, Vec<u8>)> {
+    let pool: Vec<&str> = {
+        let mut p = GEN_NAMES.to_vec();
+        rng.shuffle(&mut p);
+        p.truncate(rng.range(2, 5));
+        p
+    };
+    let mut files: Vec<(String, Vec<u8>)> = vec![];
+    for _ in 0..rng.range(1, 9) {
+        let depth = rng.range(1, 4);
+        let path: String = (0..depth).map(|_| format!("/{}", rng.pick(&pool))).collect();
+        // a path is either a file or a directory: skip candidates that are (or contain) an existing file's path
+        if files.iter().any(|(f, _)| f == &path || crate::model::is_under(f, &path) || crate::model::is_under(&path, f)) {
+            continue;
+        }
+        let len = *rng.pick(&[0usize, 1, 5, 40, 9000]);
+        files.push((path, rng.bytes(len, false)));
+    }
+    files
+}
+
+pub fn run_generated(a: &Args, idx: u64, acc: &mut Acc) {
+    let mut rng = Rng::derive(a.seed, "c18-generated", idx);
+    let files = gen_embedded_tree(&mut rng);
+    if files.is_empty() {
+        return;
+    }
+    // the same tree on disk for the PhysicalFS side
+    let dir = crate::cfg::new_scratch_dir();
+    for (p, b) in &files {
+        let full = dir.join(&p[1..]);
+        std::fs::create_dir_all(full.parent().unwrap()).unwrap();
+        std::fs::write(&full, b).unwrap();
+    }
+    // leaked: a few hundred bytes per case (the big contents are rare)
+    let names: Vec<&'static str> = files.iter().map(|(p, _)| &*Box::leak(p[1..].to_string().into_boxed_str())).collect();
+    let data = files.iter().zip(&names).map(|((_, b), n)| (*n, &*Box::leak(b.clone().into_boxed_slice()))).collect();
+    GEN.with(|g| *g.borrow_mut() = GenTable { names: Box::leak(names.into_boxed_slice()), data });
+    let efs = VfsPath::new(EmbeddedFS::<GenFixture>::new());
+    let before = acc.violations.len();
+    run_fixture(a, "generated", efs, dir.to_str().unwrap(), acc);
+    if acc.violations.len() > before {
+        acc.note("generated_trees_with_violations", format!("case {} files {:?}", idx, files.iter().map(|(p, b)| format!("{} ({} bytes)", p, b.len())).collect::<Vec<_>>()));
+    }
+    acc.count("generated_trees", 1);
+    let _ = std::fs::remove_dir_all(&dir);
+}
 
 fn collect_files(dir: &std::path::Path, prefix: &str, out: &mut Vec<(String, Vec<u8>)>) {
     let mut entries: Vec<_> = std::fs::read_dir(dir).unwrap().map(|e| e.unwrap()).collect();
@@ -76,7 +153,7 @@ fn run_fixture(a: &Args, name: &'static str, efs: VfsPath, dir: &str, acc: &mut 
         model.m.insert(p.clone(), Node::File(b.clone()));
     }
     let paths = path_set(&model);
-    let mk = |what: J| J::obj().set("fixture", J::s(name)).set("dir", J::s(dir)).set("what", what);
+    let mk = |what: J| J::obj().set("fixture", J::s(name)).set("dir", J::s(dir)).set("files", J::arr(files.iter().map(|(p, b)| J::s(format!("{} ({} bytes)", p, b.len()))))).set("what", what);
     let mut order = 0u64;
     // ---- observers: full snapshot of both, with three read-buffer sizes
     for buf in [1usize, 7, 8192] {
@@ -244,12 +321,13 @@ fn run_fixture(a: &Args, name: &'static str, efs: VfsPath, dir: &str, acc: &mut 
         }
         acc.count("walks_compared", 1);
     }
-    acc.sample(if name == "embed_tree" { 0 } else { 1 }, J::obj().set("fixture", J::s(name)).set("files", J::arr(files.iter().map(|(p, b)| J::s(format!("{} ({} bytes)", p, b.len()))))).set("paths_probed", J::i(paths.len() as u64 + 1)).set("some_paths", J::arr(paths.iter().take(25).map(J::s))));
+    acc.sample(if name == "embed_tree" { 0 } else if name == "generated" { 2 } else { 1 }, J::obj().set("fixture", J::s(name)).set("files", J::arr(files.iter().map(|(p, b)| J::s(format!("{} ({} bytes)", p, b.len()))))).set("paths_probed", J::i(paths.len() as u64 + 1)).set("some_paths", J::arr(paths.iter().take(25).map(J::s))));
 }
 
 pub fn run(a: &Args) -> Acc {
     let mut acc = Acc::new();
     run_fixture(a, "embed_tree", VfsPath::new(EmbeddedFS::<Fixture>::new()), concat!(env!("CARGO_MANIFEST_DIR"), "/fixtures/embed_tree"), &mut acc);
     run_fixture(a, "repo_test_directory", VfsPath::new(EmbeddedFS::<RepoFixture>::new()), "/repo/test/test_directory", &mut acc);
+    acc.merge(par_run(a, "c18-generated", a.n(300, 6000), run_generated));
     acc
 }
